@@ -46,7 +46,7 @@ var (
 	shVaeDS   = shim{zz + "vae/datastore", "vaedatastore"}
 	shVaeMC   = shim{zz + "vae/memcache", "vaememcache"}
 	shVaeUser = shim{zz + "vae/user", "vaeuser"}
-	shVs      = shim{zz + "vs", "vs"}
+	shVs      = shim{zz + "vs", "zzvs"}
 )
 
 // whole packages that are replaced
@@ -139,7 +139,7 @@ func (rw *fileRW) errorf(pos token.Pos, f string, a ...interface{}) {
 
 func (rw *fileRW) vs(name string) ast.Expr {
 	rw.need[shVs] = true
-	return &ast.SelectorExpr{X: ast.NewIdent("vs"), Sel: ast.NewIdent(name)}
+	return &ast.SelectorExpr{X: ast.NewIdent("zzvs"), Sel: ast.NewIdent(name)}
 }
 
 func call(fun ast.Expr, args ...ast.Expr) *ast.CallExpr {
@@ -552,6 +552,7 @@ func main() {
 	rt := flag.String("rt", "/verif/rt", "runtime packages directory (becomes zz_verif/*)")
 	harness := flag.String("harness", "/verif/harness", "harness packages directory (becomes zz_verif/h/*)")
 	norewrite := flag.Bool("norewrite", false, "only add the virtual packages, leave repository files untouched")
+	mem := flag.Bool("mem", true, "announce plain-memory accesses (data-race detection and access scheduling points)")
 	flag.Parse()
 	if *out == "" {
 		fmt.Fprintln(os.Stderr, "need -out")
@@ -573,6 +574,7 @@ func main() {
 			os.Exit(3)
 		}
 		nfiles := 0
+		memSites, memSkipped := 0, 0
 		for _, p := range pkgs {
 			if len(p.Errors) > 0 {
 				for _, e := range p.Errors {
@@ -604,6 +606,11 @@ func main() {
 				f.Comments = nil
 				f.Doc = nil
 				stripDocs(f)
+				if *mem {
+					a, b := rw.memInstrument()
+					memSites += a
+					memSkipped += b
+				}
 				rw.apply()
 				rw.fixImports()
 				allErrs = append(allErrs, rw.errs...)
@@ -669,6 +676,8 @@ func main() {
 			}
 		}
 		report["files_rewritten"] = nfiles
+		report["mem_announcements"] = memSites
+		report["mem_skipped"] = memSkipped
 	}
 	// runtime + fakes
 	addTree(&ov, *rt, filepath.Join(*repo, "zz_verif"))
